@@ -34,6 +34,7 @@ REQ = ['%s >= 0' % P_, '%s >= %s + 1' % (N_, P_), 'len(%s) == %s + %s + 1' % (U_
 CONTRACTS = {
     'evaluators.CurveEvaluator.evaluate': dict(
         props=['C01', 'C18'],
+        replay_call="lambda m, a: m.CurveEvaluator().evaluate(a['datadict'], start=a['kw_start'], stop=a['kw_stop'])",
         args=OD([('self', 'self'), ('datadict', DD), ('kwargs', 'kwargs')]),
         ghost_args=OD([('kw_start', 'real'), ('kw_stop', 'real'), ('d0', 'int'), ('c', 'real'), ('d1', 'int'), ('d2', 'int'), ('ch', 'real'), ('h0', 'bool'), ('h1', 'bool'), ('h2', 'bool')]),
         kwargs={'start': '$kw_start', 'stop': '$kw_stop'},
@@ -75,6 +76,7 @@ CONTRACTS = {
     # contains the evaluated point.
     'evaluators.CurveEvaluatorRational.evaluate': dict(
         props=['C01', 'C18'],
+        replay_call="lambda m, a: m.CurveEvaluatorRational().evaluate(a['datadict'], start=a['kw_start'], stop=a['kw_stop'])",
         args=OD([('self', 'self'), ('datadict', DD), ('kwargs', 'kwargs')]),
         ghost_args=OD([('kw_start', 'real'), ('kw_stop', 'real'), ('d0', 'int'), ('c', 'real')]),
         kwargs={'start': '$kw_start', 'stop': '$kw_stop'},
@@ -140,3 +142,49 @@ CONTRACTS['evaluators.CurveEvaluator.evaluate#active_hull'] = dict(
     rounds=3, chunks=8, timeout_ms=60000,
 )
 del _base
+
+# ---- A3.2: derivatives of a non-rational curve at one parameter.   C02
+# Proved for every degree, order, size and dimension: the result has deriv_order + 1 rows of `dimension` entries; the rows of
+# order above the degree are zero (the C02 clause "orders above the degree (zero for non-rational shapes)"); and row k <= degree
+# is the sum over the span window of (k-th basis-function derivative) x (control point), coordinate by coordinate:
+#     CK[k][d0] == sum_{j=0..p} ders[k][j] * P[span - p + j][d0]
+# with ders the table returned by helpers.basis_function_ders (callee contract: shape and safety, contracts/basis_ders.py)
+# and span the result of the span search (callee contract).  d0 is a ghost coordinate.  The equation is asserted where each
+# row is completed (the table and the span are locals of the function).
+DREQ = ['%s >= 0' % P_, '%s >= %s + 1' % (N_, P_), 'len(%s) == %s + %s + 1' % (U_, N_, P_),
+        'forall(a, 0, len(%s), forall(b, a, len(%s), %s[a] <= %s[b]))' % (U_, U_, U_, U_),
+        '%s[%s - 1] < %s[%s]' % (U_, N_, U_, N_),
+        'len(%s) == %s' % (CP, N_), "datadict['dimension'] >= 1",
+        "forall(q, 0, len(%s), len(%s[q]) == %s)" % (CP, CP, DIM),
+        '%s[%s] <= parpos' % (U_, P_), 'parpos <= %s[%s]' % (U_, N_), 'deriv_order >= 0', '0 <= d0', 'd0 < %s' % DIM]
+CONTRACTS['evaluators.CurveEvaluator.derivatives'] = dict(
+    props=['C02'],
+    args=OD([('self', 'self'), ('datadict', DD), ('parpos', 'real'), ('deriv_order', 'int'), ('kwargs', 'kwargs')]),
+    ghost_args=OD([('d0', 'int')]),
+    kwargs={},
+    self={'_span_func': ('func', 'helpers.find_span_linear')},
+    replay_call="lambda m, a: m.CurveEvaluator().derivatives(a['datadict'], a['parpos'], a['deriv_order'])",
+    replay_locals=OD([('degree', "datadict['degree'][0]"), ('ctrlpts', "datadict['control_points']"),
+                      ('span', "helpers.find_span_linear(datadict['degree'][0], datadict['knotvector'][0], datadict['size'][0], parpos)"),
+                      ('bfunsders', "helpers.basis_function_ders(datadict['degree'][0], datadict['knotvector'][0], "
+                                    "helpers.find_span_linear(datadict['degree'][0], datadict['knotvector'][0], datadict['size'][0], parpos), "
+                                    "parpos, min(datadict['degree'][0], deriv_order))")]),
+    pyfuncs={'cdoto': "def cdoto(a, m, c, off, lo, hi):\n    t = 0.0\n    for j in range(lo, hi):\n        t += a[j] * m[off + j][c]\n    return t\n"},
+    returns=('list', ('list', 'real')), locals={'CK': ('list', ('list', 'real')), 'bfunsders': ('list', ('list', 'real'))},
+    requires=DREQ,
+    ensures=['len(result) == deriv_order + 1', 'forall(k, 0, len(result), len(result[k]) == %s)' % DIM,
+             'forall(k, min(%s, deriv_order) + 1, deriv_order + 1, forall(d, 0, %s, result[k][d] == 0))' % (P_, DIM),
+             # every row up to min(degree, order), stated over the function's own locals `span` and `bfunsders` (the results
+             # of its two callee calls, visible at the return statement)
+             'forall(k, 0, min(%s, deriv_order) + 1, result[k][d0] == cdoto(bfunsders[k], ctrlpts, d0, span - degree, 0, degree + 1))' % P_],
+    loops={0: dict(inv=['len(CK) == deriv_order + 1', 'forall(q, 0, len(CK), len(CK[q]) == dimension)',
+                        'du == min(degree, deriv_order)',
+                        'forall(q, k, deriv_order + 1, forall(d, 0, dimension, CK[q][d] == 0))',
+                        'forall(q, 0, k, CK[q][d0] == cdoto(bfunsders[q], ctrlpts, d0, span - degree, 0, degree + 1))']),
+           1: dict(inv=['len(CK) == deriv_order + 1', 'forall(q, 0, len(CK), len(CK[q]) == dimension)',
+                        'du == min(degree, deriv_order)',
+                        'forall(q, k + 1, deriv_order + 1, forall(d, 0, dimension, CK[q][d] == 0))',
+                        'forall(q, 0, k, CK[q][d0] == cdoto(bfunsders[q], ctrlpts, d0, span - degree, 0, degree + 1))',
+                        'CK[k][d0] == cdoto(bfunsders[k], ctrlpts, d0, span - degree, 0, j)'])},
+    rounds=3, timeout_ms=30000, chunks=2,
+)
